@@ -121,6 +121,14 @@ pub fn gen_filter(r: &mut StdRng, depth: usize, nested_ok: bool, ctx: &str) -> F
           F::F64R("score".into(), a, a + r.gen_range(0..=4))
         }
       },
+      "reviews" => match r.gen_range(0..3) {
+        0 => F::KwEq("author".into(), pick(r, &AUTHORS).to_string()),
+        1 => F::KwIn("author".into(), (0..r.gen_range(1..=2)).map(|_| pick(r, &AUTHORS).to_string()).collect()),
+        _ => {
+          let a = r.gen_range(1..=5);
+          F::I64R("stars".into(), a, a + r.gen_range(0..=2))
+        }
+      },
       _ => match r.gen_range(0..2) {
         0 => F::KwEq("user".into(), pick(r, &AUTHORS).to_string()),
         _ => {
@@ -134,7 +142,7 @@ pub fn gen_filter(r: &mut StdRng, depth: usize, nested_ok: bool, ctx: &str) -> F
     return leaf(r);
   }
   let nest_path = match ctx {
-    "" => Some(("comments", "comments")),
+    "" => Some(if chance(r, 1, 4) { ("reviews", "reviews") } else { ("comments", "comments") }),
     "comments" => Some(("replies", "comments.replies")),
     _ => None,
   };
@@ -147,9 +155,19 @@ pub fn gen_filter(r: &mut StdRng, depth: usize, nested_ok: bool, ctx: &str) -> F
       if let (true, Some((p, full))) = (nested_ok, nest_path) {
         if chance(r, 1, 2) {
           // sibling nested clauses on the same path under And: must bind to one object
+          // at the root the siblings may also alternate between the two nested paths (A-B-A):
+          // grouping is by path, not by adjacency
+          let n = r.gen_range(2..=4);
           F::And(
-            (0..r.gen_range(2..=3))
-              .map(|_| F::Nested(p.to_string(), Box::new(gen_filter(r, depth - 1, nested_ok, full))))
+            (0..n)
+              .map(|_| {
+                let (p2, full2) = if ctx.is_empty() && chance(r, 1, 3) {
+                  if p == "comments" { ("reviews", "reviews") } else { ("comments", "comments") }
+                } else {
+                  (p, full)
+                };
+                F::Nested(p2.to_string(), Box::new(gen_filter(r, depth - 1, nested_ok, full2)))
+              })
               .collect(),
           )
         } else {
